@@ -1053,3 +1053,131 @@ func runC05NoErrAssert(c *Ctx) {
 		c.Rules[c.cur].Instances++
 	}
 }
+
+// ---------- C19.R9: an accepted request is never booked as "failed to enqueue" ----------
+//
+// With wait_for_result the memory queue's Offer returns, after the request was accepted, the outcome of its
+// export (received from the done channel) or the caller's context error. The telemetry wrapper books every error of
+// Offer under enqueue_failed. Unless the two kinds of error can be told apart, a failed export is counted twice
+// (send_failed by the sender, enqueue_failed by the wrapper) and the exporter's sum exceeds what it was given.
+func runC19Accepted(c *Ctx) {
+	p := c.P
+	c.Rule("R9", "PROV+GATE", "errors that a queue's Offer returns for a request it has already accepted (export outcome received from the done channel, context error while waiting) are wrapped in a package-local marker type, and the telemetry wrapper returns on the marker side before it touches the enqueue-failed counter", 2)
+	pk := p.ByPath[pkgQB]
+	if pk == nil {
+		c.Anchor("queuebatch")
+		return
+	}
+	var markers []*types.Named
+	nRet := 0
+	for _, fn := range p.AllSrcFuncs(pk) {
+		if fn.Parent() != nil || fn.Name() != "Offer" || fn.Signature.Recv() == nil {
+			continue
+		}
+		// returns whose value derives from a channel receive (also through select) or ctx.Err() made after the add
+		for _, r := range returnsOf(fn) {
+			res := resultsOf(r)
+			if len(res) != 1 || isNilConst(res[0]) {
+				continue
+			}
+			fromRecv := false
+			for v := range backSlice(res[0]) {
+				switch x := v.(type) {
+				case *ssa.UnOp:
+					if x.Op == token.ARROW {
+						fromRecv = true
+					}
+				case *ssa.Select:
+					fromRecv = true
+				case *ssa.Extract:
+					if _, ok := x.Tuple.(*ssa.Select); ok {
+						fromRecv = true
+					}
+				}
+			}
+			// ctx.Err() in a select case (after waiting)
+			selectCase := false
+			for _, g := range guardsOf(r.Block()) {
+				if op, x, _, ok := cmpOf(g); ok && op == token.EQL {
+					if ex, ok := x.(*ssa.Extract); ok {
+						if _, ok := ex.Tuple.(*ssa.Select); ok {
+							selectCase = true
+						}
+					}
+				}
+			}
+			if !fromRecv && !selectCase {
+				continue
+			}
+			nRet++
+			var marker *types.Named
+			if mi, ok := res[0].(*ssa.MakeInterface); ok {
+				if n := namedOf(mi.X.Type()); n != nil && n.Obj().Pkg() == pk.Types {
+					if _, isStruct := n.Underlying().(*types.Struct); isStruct {
+						marker = n
+					}
+				}
+			}
+			if marker != nil {
+				markers = append(markers, marker)
+			}
+			c.Check(marker != nil, fmt.Sprintf("post-acceptance error #%d returned by %s is marked", nRet, fnName(fn)), p.Pos(r.Pos()), "wrapped in a package-local marker type", "Offer returns, for a request that the queue has already accepted, a plain error (the export outcome or the caller's context error): the telemetry wrapper books it under enqueue_failed, so a failed export is counted as send_failed and enqueue_failed (7 given → 7 + 7) and a request whose producer gave up waiting is counted as not enqueued although it is sent later")
+		}
+	}
+	if nRet == 0 {
+		c.Undecided("post-acceptance returns of Offer", "-", "none found (wait_for_result path not recognised)")
+		return
+	}
+	// the wrapper: the counter increment is unreachable on the marker side
+	for _, fn := range p.AllSrcFuncs(pk) {
+		if fn.Parent() != nil || fn.Name() != "Offer" || fn.Signature.Recv() == nil {
+			continue
+		}
+		adds := calls(fn, func(ci ssa.CallInstruction) bool {
+			if !ci.Common().IsInvoke() || ci.Common().Method.Name() != "Add" {
+				return false
+			}
+			_, path := fieldChain(ci.Common().Value)
+			return len(path) > 0 && strings.Contains(strings.ToLower(path[len(path)-1]), "enqueuefailed")
+		})
+		if len(adds) == 0 {
+			continue
+		}
+		for _, add := range adds {
+			okGate := false
+			for _, as := range callsNamed(fn, func(f *types.Func) bool { return f.FullName() == "errors.As" }) {
+				// target is a marker
+				isMarker := false
+				if len(as.Common().Args) == 2 {
+					for v := range backSlice(as.Common().Args[1]) {
+						if al, ok := v.(*ssa.Alloc); ok {
+							n := namedOf(al.Type().(*types.Pointer).Elem())
+							for _, mk := range markers {
+								if n == mk {
+									isMarker = true
+								}
+							}
+						}
+					}
+				}
+				if !isMarker {
+					continue
+				}
+				// on the true side of the As test the Add is unreachable
+				asv, ok := as.(*ssa.Call)
+				if !ok {
+					continue
+				}
+				for _, r := range *asv.Referrers() {
+					if iff, ok := r.(*ssa.If); ok {
+						t := iff.Block().Succs[0]
+						if len(t.Instrs) > 0 && t.Instrs[0] != add.(ssa.Instruction) && !canReach(t.Instrs[0], add.(ssa.Instruction), nil) {
+							okGate = true
+						}
+					}
+				}
+			}
+			c.Check(okGate || len(markers) == 0, "enqueue-failed counter in "+fnName(fn)+" skips post-acceptance errors", p.Pos(add.Pos()), "errors.As(err, &marker) side returns before the counter", "the enqueue-failed counter is incremented for every error of Offer, including the marked post-acceptance ones")
+		}
+	}
+}
